@@ -57,6 +57,7 @@ inductive Ev
   | rx (a : Ack)                               -- an acknowledgement was read
   | doneOk (op : Nat) (rcs : List Nat) (props : Nat)   -- exchange completed without error with these codes / properties
   | doneOther (op : Nat)                       -- any other completion (error of an exchange; completion of another operation)
+  | quiescent                                  -- cancel() / a finished async_disconnect, and the execution context has run out of work
   deriving Repr, DecidableEq, Inhabited
 
 inductive Phase
@@ -85,6 +86,7 @@ structure S where
   pidOf : Nat → Option Nat := fun _ => none          -- identifier an operation was seen with (never forgotten)
   bodyOf : Nat → Option Nat := fun _ => none         -- bytes an operation's request was seen with (never forgotten)
   isDone : Nat → Bool := fun _ => false
+  ops : List Nat := []                               -- every initiated operation
   writing : Bool := false
   connected : Bool := false
   limit : Nat := 65535
@@ -223,7 +225,7 @@ def releases (s : S) (a : Ack) : Bool :=
 
 def step (s : S) : Ev → Option S
   | .init op k n =>
-    if (s.known op).isSome then none else some { s with known := upd s.known op (some (k, n)) }
+    if (s.known op).isSome then none else some { s with known := upd s.known op (some (k, n)), ops := op :: s.ops }
   | .connUp rm =>
     let lim := rm.getD MAX_LIMIT
     some { s with connected := true, limit := lim, quota := lim, holders := [], wire := [], slot := fun p => (s.slot p).map Slot.onConnUp }
@@ -257,7 +259,9 @@ def step (s : S) : Ev → Option S
       match s.slot p with
       | some sl => if sl.op = op then some { s1 with slot := upd s.slot p none } else some s1
       | none => some s1
+  | .quiescent => if s.ops.all s.isDone then some s else none
 
+-- (the last case of `step`: nothing may be left outstanding when the client has been cancelled and the context has drained)
 def run (s : S) : List Ev → Option S
   | [] => some s
   | e :: es => (step s e).bind (run · es)
